@@ -45,8 +45,20 @@ RULE = ('histories of attach/detach/receive/settle/reply/disconnect events over 
         'while it is up (like a socket), so `sent` is what actually went out; demanded by the specification machine '
         '(s_reply_out): the Data goes out iff t <= deadline and the face is up, and the callback reports "sent" (True) '
         'exactly then -- False or NetworkError otherwise (classes reply-*-face-down).  A separate '
-        'stream adds None handlers (correspondence only). non-trivial = at least one attach and '
-        'one Interest; distinct by history hash')
+        'stream adds None handlers (correspondence only).  Registration API of the legacy front-end (real app.NDNApp connected '
+        'through its own main_loop() to a scripted forwarder face): world histories of route() declared before connecting / on the '
+        'live connection, register(name, handler) and register(name, None), unregister (of attached, free and announced-only '
+        'prefixes), set_/unset_interest_filter, Interests, connect / disconnect / reconnect, and the forwarder answering the '
+        'outstanding command with status 200 / 201 / 400 / 403 / 404 / 500 / 0, a Nack (50, 100, 150, 0, reason absent), no answer '
+        '(timeout), a non-ControlResponse content, no content, a bad signature; (a) answer grid: 15 answers x 5 ways /a/b gets or '
+        'loses a handler under a handler at /a, Interests before and after every answer; (b) role grid on the 9-node tree: each node x '
+        'each role {free, filter, register, declared route, live route, announced without handler} (others random), probes of all '
+        'probe names after every phase, unregister of half the nodes of every role, register with / without handler on occupied '
+        'prefixes, reconnection; (c) random world histories steered by the schedule.  The schedule (Lin) turns a world history into '
+        'table steps VRegister / VUnregister (Model/DispatchV1.v), Interests and loop turns; the specification machine '
+        '(Spec/DispatchV1Spec.v: register without a handler changes nothing, unregister frees exactly that prefix and never fails, '
+        'answers never reach the table) says who receives each Interest (classes *-registration-api).  non-trivial = at least one '
+        'attach and one Interest; distinct by history hash')
 ASSUMPTIONS = [
     'events separated by `settle` are separated by loop quiescence; events inside one turn run without a loop turn '
     'in between (asyncio task scheduling is FIFO: modelled as the pending list)',
@@ -55,6 +67,12 @@ ASSUMPTIONS = [
     'handlers are distinct callables; None as a handler is outside the specification (correspondence only)',
     'a face transmits nothing while `running` is false (the recording face drops such bytes, as a closed socket does); '
     'a NetworkError out of reply() counts as "not reported as sent"',
+    'registration API (legacy front-end): WHEN the table step of a route() / register() / unregister() call runs is the '
+    'schedule, an input: tasks run in creation order; the starting task of main_loop registers the declared routes in order, '
+    'each when the previous command has completed (whatever the answer), and ends at the first refused one; commands go out '
+    'one at a time.  The harness class Lin encodes this and is exercised (0 disagreements), not verified.  Not driven: '
+    'disconnecting while a command is outstanding, route() on a live connection while the starting task is under way, '
+    'register / unregister before the first connection (docs/C04.md)',
 ]
 
 FE_V2, FE_V1, FE_DISP = 2, 1, 0
@@ -709,6 +727,479 @@ def run_history(ctx, fe, h, stratum, state, check_nodes=True):
     ctx.case((fe, full), nontriv, {'fe': FE_NAME[fe], 'history': full[:12]}, stratum)
 
 
+# =====================================================================================================
+# The registration API of the legacy front-end: route() / register() / unregister() over a scripted forwarder
+# =====================================================================================================
+# World events (harness level; names are component lists):
+#   ('route', name, hid, vid, raw, sig, repr_kind)   app.route(arg, v, raw, sig)(handler)      -- at any time
+#   ('reg', name, hid | None, vid, raw, sig, repr_kind)   a task running app.register(arg, handler | None, v, raw, sig)
+#   ('unreg', name, repr_kind)                       a task running app.unregister(arg)
+#   ('att', ...) / ('det', ...) / ('recv', ...)      set_interest_filter / unset_interest_filter / an incoming Interest
+#   ('connect',)                                     a task running app.main_loop(): the face opens, the declared routes
+#                                                    are registered one after the other
+#   ('disconnect',)                                  the connection goes away (only while no command is outstanding)
+#   ('fwd', answer)                                  the forwarder answers the command that is outstanding (commands go out
+#                                                    one at a time) and the loop runs: answer = a status code (200, 400, ...)
+#                                                    | ('nack', reason form) | 'timeout' | 'garbage' | 'badsig' | 'empty'
+#   ('settle',)                                      the loop runs
+# The table steps these calls make (Model/DispatchV1.v: VRegister / VUnregister, Spec/DispatchV1Spec.v: SRegister /
+# SUnregister) happen when the loop runs the calls; `Lin` is the schedule: it turns a world history into the history of
+# table events, Interests and loop turns that the model and the specification machine are run on.
+FWD_ANSWERS = [200, 200, 200, 400, 403, 404, 500, 201, 0, ('nack', 50), ('nack', 100), ('nack', 150), ('nack', ('absent',)),
+               ('nack', 0), 'timeout', 'garbage', 'badsig', 'empty']
+
+
+class FwdFace:
+    """Scripted forwarder: records the command Interests the application sends; the history says how each is answered."""
+    def __init__(self, loop):
+        self.loop = loop
+        self.running = False
+        self.callback = None
+        self.closed = None
+        self.cmds = []         # outstanding commands: (wire, virtual time it was sent)
+        self.sent = []
+
+    async def open(self):
+        self.running = True
+        self.closed = self.loop.create_future()
+
+    async def run(self):
+        await self.closed
+
+    def shutdown(self):
+        self.running = False
+        if self.closed is not None and not self.closed.done():
+            self.closed.set_result(None)
+
+    def send(self, data):
+        self.sent.append(bytes(data))
+        self.cmds.append((bytes(data), self.loop.time()))
+
+    def isLocalFace(self):
+        return True
+
+
+class Lin:
+    """The schedule of the legacy front-end's registration calls (asyncio: tasks run in creation order; commands are sent
+    one at a time, first come first served; main_loop's starting task registers the declared routes in order, each after
+    the previous command has completed -- whatever the answer --, and ends at the first refused one).  feed(i, e) consumes
+    world event i and appends to self.ops entries (model op, specification op, where the implementation's observation
+    is found):
+        ('ev', i)          observation of world event i itself
+        ('call', cid)      outcome of the first step of spawned call cid (a register / unregister task)
+        ('route', i)       outcome of the first step of the register task that route() of event i created
+        ('chain', c, k)    outcome of the k-th registration of the starting task of connection c
+        ('clean', i)       the clean-up that follows the disconnect of event i
+        ('turn', i)        the invocations made by the loop turn of event i
+    `occ` (which prefixes are occupied) is tracked only to know where a starting task ends and to steer generation."""
+    def __init__(self):
+        self.connected = False      # face.running as the NEXT event sees it
+        self.conn = 0
+        self.declared = []
+        self.chain = None           # routes the starting task has still to register | None
+        self.chain_n = 0
+        self.queue = []             # steps the next loop turn performs, in order
+        self.cmds = []              # commands sent or waiting to be sent, in order: True = issued by the starting task
+        self.occ = {}
+        self.ops = []
+        self.ncalls = 0
+
+    @staticmethod
+    def _opt(x):
+        return [] if x is None else [x]
+
+    def _attach(self, k, hid):
+        if tuple(k) in self.occ:
+            return False
+        self.occ[tuple(k)] = hid
+        return True
+
+    def _register(self, r, src):
+        name, hid, vid, raw, sig = r
+        self.ops.append(([7, name, self._opt(hid), self._opt(vid), raw, sig], [7, name, self._opt(hid)], src))
+        if hid is not None and not self._attach(name, hid):
+            return False            # ValueError before any command
+        return True
+
+    def busy(self):
+        return bool(self.cmds) or self.chain is not None or bool(self.queue)
+
+    def feed(self, i, e):
+        k = e[0]
+        if k == 'att':
+            self.ops.append(([1, e[1], self._opt(e[2]), self._opt(e[3]), e[4], e[5]], [1, e[1], e[2]], ('ev', i)))
+            self._attach(e[1], e[2])
+        elif k == 'det':
+            self.ops.append(([2, e[1]], [2, e[1]], ('ev', i)))
+            self.occ.pop(tuple(e[1]), None)
+        elif k == 'recv':
+            op = [3, e[1], self._opt(e[2]), e[3]]
+            self.ops.append((op, op, ('ev', i)))
+        elif k == 'route':
+            r = (e[1], e[2], e[3], e[4], e[5])
+            self.declared.append(r)
+            if self.connected:
+                self.queue.append(('route', r, i))
+        elif k == 'reg':
+            self.queue.append(('reg', (e[1], e[2], e[3], e[4], e[5]), self.ncalls))
+            self.ncalls += 1
+        elif k == 'unreg':
+            self.queue.append(('unreg', e[1], self.ncalls))
+            self.ncalls += 1
+        elif k == 'connect':
+            self.queue.append(('connect',))
+        elif k == 'disconnect':
+            self.connected = False          # face.shutdown() clears `running` at once; _clean_up follows in the loop turn
+            self.queue.append(('disconnect', i))
+        elif k in ('settle', 'fwd'):
+            if k == 'fwd':
+                if not self.cmds:
+                    raise RuntimeError(f'event {i}: no command is outstanding')
+                if self.cmds.pop(0):
+                    self.queue.append(('chain',))
+            self.turn()
+            self.ops.append(([4], [4], ('turn', i)))
+        else:
+            raise RuntimeError(f'event {i}: unknown event {e!r}')
+
+    def turn(self):
+        q, self.queue = self.queue, []
+        while q:
+            st = q.pop(0)
+            if st[0] in ('reg', 'route'):
+                if self._register(st[1], ('call', st[2]) if st[0] == 'reg' else ('route', st[2])):
+                    self.cmds.append(False)
+            elif st[0] == 'unreg':
+                self.ops.append(([8, st[1]], [8, st[1]], ('call', st[2])))
+                self.occ.pop(tuple(st[1]), None)
+                self.cmds.append(False)
+            elif st[0] == 'connect':
+                self.connected = True
+                self.conn += 1
+                self.chain = list(self.declared)
+                self.chain_n = 0
+                q.append(('chain',))        # the starting task is created by main_loop: it runs after what was created before
+            elif st[0] == 'chain':
+                if self.chain:
+                    r = self.chain.pop(0)
+                    ok = self._register(r, ('chain', self.conn, self.chain_n))
+                    self.chain_n += 1
+                    if ok:
+                        self.cmds.append(True)
+                    else:
+                        self.chain = None   # the starting task ends with the ValueError
+                else:
+                    self.chain = None
+            elif st[0] == 'disconnect':
+                self.ops.append(([6], [6], ('clean', st[1])))
+                self.occ.clear()
+
+
+class World(Impl):
+    """A real ndn.app.NDNApp over the scripted forwarder face, connected through its own main_loop()."""
+    def __init__(self, loop):
+        super().__init__(FE_V1, loop)
+        from ndn.app import NDNApp
+        self.face = FwdFace(loop)
+        self.app = NDNApp(face=self.face, keychain=object())
+        self.trie = self.app._prefix_tree
+        self.ml = []            # main_loop tasks, one per connection
+        self.chain_tasks = []   # the starting tasks main_loop created, one per connection
+        self.route_tasks = []   # the register tasks route() created
+        self.first = {}         # call id -> None (running) | ('ret', value) | ('exc', exception)
+        self.tasks = []
+
+    def factory(self, loop, coro, **kw):
+        t = asyncio.Task(coro, loop=loop, **kw)
+        qn = getattr(coro, '__qualname__', '')
+        if 'starting_task' in qn:
+            self.chain_tasks.append(t)
+        elif qn.endswith('NDNApp.register'):
+            self.route_tasks.append(t)
+        return t
+
+    async def guard(self, cid, co):
+        try:
+            self.first[cid] = ('ret', await co)
+        except Exception as e:   # noqa  (an observation)
+            self.first[cid] = ('exc', e)
+
+    def spawn(self, co):
+        cid = len(self.tasks)
+        self.first[cid] = None
+        self.tasks.append(self.loop.create_task(self.guard(cid, co)))
+
+    def reg(self, arg, hid, vid, raw, sig):
+        self.spawn(self.app.register(arg, self.handler(hid), self.validator(vid), bool(raw), bool(sig)))
+
+    def unreg(self, arg):
+        self.spawn(self.app.unregister(arg))
+
+    def route(self, arg, hid, vid, raw, sig):
+        """-> (outcome of route() itself, the register task it created | None)"""
+        n = len(self.route_tasks)
+        try:
+            self.app.route(arg, self.validator(vid), bool(raw), bool(sig))(self.handler(hid))
+            o = [1]
+        except Exception as e:   # noqa
+            o = [0, err_code(e)]
+        return o, (self.route_tasks[n] if len(self.route_tasks) > n else None)
+
+    def connect(self):
+        self.ml.append(self.loop.create_task(self.app.main_loop()))
+
+    @staticmethod
+    def outcome(t):
+        """first-step outcome of a task of the library: [1] unless it has ended with an exception"""
+        if t is not None and t.done() and not t.cancelled() and t.exception() is not None:
+            return [0, err_code(t.exception())]
+        return [1]
+
+    def answer(self, ans):
+        """the forwarder answers the outstanding command (or lets it time out)"""
+        from ndn.encoding import make_data, MetaInfo, parse_interest
+        from ndn.security import DigestSha256Signer
+        from ndn.app_support import nfd_mgmt
+        from harness.props import _pipeline as PL
+        wire, sent_at = self.face.cmds.pop(0)
+        if ans == 'timeout':
+            self.loop.advance_to(max(self.loop.time(), sent_at + 1.0 + 1e-6))
+            return
+
+        async def feed(typ, pkt):
+            await self.face.callback(typ, pkt)
+        if isinstance(ans, (tuple, list)):
+            form = ans[1]
+            form = tuple(form) if isinstance(form, (tuple, list)) else form
+            self.loop.run_until_complete(feed(0x64, PL.nack_wire(wire, form)))
+            return
+        name = parse_interest(wire)[0]
+        if ans == 'garbage':
+            content = b'\x65\x03\x01\x02\x03'
+        elif ans == 'empty':
+            content = None
+        else:
+            cr = nfd_mgmt.ControlResponse()
+            cr.status_code = 200 if ans == 'badsig' else ans
+            cr.status_text = 'answer'
+            content = G.tlv(0x65, bytes(cr.encode()))
+        d = bytearray(make_data(name, MetaInfo(), content, signer=DigestSha256Signer()))
+        if ans == 'badsig':
+            d[-1] ^= 0x55
+        self.loop.run_until_complete(feed(6, bytes(d)))
+
+
+def run_world(ctx, h, stratum, state):
+    """One world history on the real legacy NDNApp; model (Model/DispatchV1.v) and specification (Spec/DispatchV1Spec.v)
+    are run on its linearisation."""
+    rng = ctx.rng
+    loop = state['loop']
+    w = World(loop)
+    lin = Lin()
+    got = {}                 # src -> observation of the implementation
+    route_task = {}
+    case = {'fe': FE_NAME[FE_V1], 'world': 1, 'history': h}
+    problems = []
+    sched = []
+
+    async def turn(chunk):
+        for i, e in chunk:
+            if e[0] == 'att':
+                _, arg = represent(rng, e[1], e[6], w.bufs)
+                got[('ev', i)] = w.attach(arg, e[2], e[3], e[4], e[5], 0)
+            elif e[0] == 'det':
+                _, arg = represent(rng, e[1], e[2], w.bufs)
+                got[('ev', i)] = w.detach(arg)
+            elif e[0] == 'recv':
+                got[('ev', i)] = await w.recv(e[1], e[2], e[4], None)
+            elif e[0] == 'route':
+                _, arg = represent(rng, e[1], e[6], w.bufs)
+                o, route_task[i] = w.route(arg, e[2], e[3], e[4], e[5])
+                if o != [1]:
+                    problems.append(f'event {i}: route() raised (error class {o[1]})')
+            elif e[0] == 'reg':
+                _, arg = represent(rng, e[1], e[6], w.bufs)
+                w.reg(arg, e[2], e[3], e[4], e[5])
+            elif e[0] == 'unreg':
+                _, arg = represent(rng, e[1], e[2], w.bufs)
+                w.unreg(arg)
+            elif e[0] == 'connect':
+                w.connect()
+            elif e[0] == 'disconnect':
+                w.face.shutdown()
+
+    def after_turn(i, n0):
+        """observations of the table steps the loop turn of event i performed (lin.ops[n0:]) and its invocations"""
+        for _, _, src in lin.ops[n0:]:
+            if src[0] == 'call':
+                r = w.first.get(src[1])
+                got[src] = [0, err_code(r[1])] if r is not None and r[0] == 'exc' else [1]
+            elif src[0] == 'route':
+                got[src] = World.outcome(route_task.get(src[1]))
+            elif src[0] == 'chain':
+                got[src] = World.outcome(w.chain_tasks[src[1] - 1] if len(w.chain_tasks) >= src[1] else None)
+            elif src[0] == 'clean':
+                ml = w.ml[-1] if w.ml else None
+                ct = w.chain_tasks[-1] if w.chain_tasks else None
+                o = World.outcome(ml)
+                if o != [1] and ct is not None and World.outcome(ct) != [1] and ct.exception() is ml.exception():
+                    o = [1]         # main_loop passes on what ended its starting task: observed there already
+                if ml is None or not ml.done():
+                    o = [0, 1000]   # main_loop still running after the connection went away
+                got[src] = o
+        got[('turn', i)] = [3, w.take()]
+
+    old_factory = loop.get_task_factory()
+    loop.set_task_factory(w.factory)
+    chunk = []
+    try:
+        for i, e in enumerate(h):
+            if e[0] in ('settle', 'fwd'):
+                n0 = len(lin.ops)
+                for j, ee in chunk:
+                    lin.feed(j, ee)
+                lin.feed(i, e)
+                if chunk:
+                    loop.run_until_complete(turn(chunk))
+                if e[0] == 'fwd' and not w.face.cmds:
+                    # the schedule expects a command on the face and the implementation has sent none: nothing to answer;
+                    # the loop turn still happens and the oracle below judges what the table did
+                    sched.append(f'event {i}: the forwarder has no command to answer')
+                elif e[0] == 'fwd':
+                    w.answer(e[1])
+                    ctx.stat('fwd:' + (e[1] if isinstance(e[1], str) else ('nack' if isinstance(e[1], (tuple, list)) else str(e[1]))))
+                loop.settle()
+                after_turn(i, n0)
+                chunk = []
+            else:
+                chunk.append((i, e))
+        if chunk:
+            raise RuntimeError('a world history must end with a loop turn')
+    except RuntimeError as e:
+        ctx.disagree('C04.world', f'schedule: {e}', case, None, None)
+        _world_teardown(w, loop, old_factory)
+        loop.errors.clear()
+        return
+    _world_teardown(w, loop, old_factory)
+    errs = list(loop.errors)
+    loop.errors.clear()
+    obs = [got.get(src) for _, _, src in lin.ops]
+
+    def upto(j):        # the world history up to the loop turn that produced linearised event j
+        return h[:next((x[2][1] for x in lin.ops[j:] if x[2][0] == 'turn'), len(h) - 1) + 1]
+    for what in problems:
+        ctx.violation(FE_NAME[FE_V1], 'route-raises', what, case)
+    if errs:
+        ctx.violation(FE_NAME[FE_V1], 'loop-exception-registration-api',
+                      f'exception reached the loop handler: {str(errs[0])[:200]}', case)
+    for cid, r in w.first.items():
+        if r is not None and r[0] == 'exc':
+            ctx.stat(f'world:call-raised-{type(r[1]).__name__}')
+    for (mop, _, src), o in zip(lin.ops, obs):
+        if src[0] in ('call', 'route', 'chain', 'clean'):
+            what = {7: 'register', 8: 'unregister', 6: 'clean-up'}[mop[0]]
+            if mop[0] == 7 and not mop[2]:
+                what += '-without-handler'
+            ctx.stat(f'world:{src[0]}:{what}:{"ok" if o == [1] else "refused" if o == [0, 3] else "raised"}')
+    if lin.conn > 1:
+        ctx.stat('world:reconnected')
+
+    if sched:
+        ctx.disagree(f'{FE_NAME[FE_V1]}:registration-api:commands', 'commands on the face are not those of the schedule: ' + sched[0],
+                     case, None, None)
+
+    # -- correspondence ---------------------------------------------------------------------------------------
+    def calls(l):
+        return [[c[0], [bytes(x) for x in c[1]], c[2]] for c in l]
+    m = ctx.call([7, FE_V1, [x[0] for x in lin.ops]])
+    if is_err(m):
+        ctx.disagree('C04.world', 'model rejected the request', case, m, None)
+        return
+    mobs, mstate = m
+    for j, (mo, io) in enumerate(zip(mobs, obs)):
+        if mo[0] == 2:
+            ctx.stat(f'world-lookup:{("noroute", "nocallback", "hit")[mo[1][0]]}')
+            ok = io == [2]
+        elif mo[0] == 3:
+            ok = io is not None and io[0] == 3 and calls(mo[1]) == io[1]
+        else:
+            ok = mo == io
+        if not ok:
+            src = lin.ops[j][2]
+            ctx.disagree(f'{FE_NAME[FE_V1]}:registration-api:{src[0]}',
+                         f'linearised event {j} (model op {lin.ops[j][0][0]}, from {src}) observed differently',
+                         {**case, 'history': upto(j)}, mo, io)
+            break
+    mlen, mitems, mpruned, mpending, mncalls = mstate
+    mit = sorted([[[bytes(c) for c in k], v] for k, v in mitems], key=lambda x: x[0])
+    if mit != w.loop_state_items:
+        ctx.disagree(f'{FE_NAME[FE_V1]}:registration-api:items', 'table contents (key, callback, validator, extra)', case, mit,
+                     w.loop_state_items)
+    if mncalls != len(w.calls):
+        ctx.disagree(f'{FE_NAME[FE_V1]}:registration-api:calls', 'number of handler invocations', case, mncalls, len(w.calls))
+    # -- specification oracle ---------------------------------------------------------------------------------
+    sobs = ctx.call([8, FE_V1, [x[1] for x in lin.ops]])
+    if is_err(sobs) or len(sobs) != len(obs):
+        ctx.disagree('C04.world', 'specification machine rejected the request', case, sobs, None)
+        return
+    for j, (s, io) in enumerate(zip(sobs, obs)):
+        sop, src = lin.ops[j][1], lin.ops[j][2]
+        kind = sop[0]
+        if io is None:
+            a = ['missing']
+        elif kind in (1, 7):
+            a = [1] if io == [1] else ([2] if io == [0, 3] else ['exc', io])
+        elif kind == 2:
+            a = [1] if io == [1] else ([3] if io == [0, 7] else ['exc', io])
+        elif kind == 3:
+            a = [4] if io == [2] else ['exc', io]
+        elif kind == 4:
+            a = [5, io[1]]
+        else:
+            a = [1] if io == [1] else ['exc', io]
+        if s[0] == 5:
+            s = [5, calls(s[1])]
+        if a != s:
+            cls = {1: 'attach-outcome', 2: 'detach-outcome', 3: 'delivery', 4: 'delivery', 6: 'disconnect',
+                   7: 'register-outcome', 8: 'unregister-outcome'}[kind]
+            what = {1: 'set_interest_filter', 2: 'unset_interest_filter', 3: 'Interest', 4: 'loop turn', 6: 'clean-up after disconnect',
+                    7: 'table step of register', 8: 'table step of unregister'}[kind]
+            ctx.violation(FE_NAME[FE_V1], cls + '-registration-api',
+                          f'{what} ({" ".join(str(x) for x in src)}): specification demands {s}, implementation did {a} '
+                          '[(5 calls) = handler invocations (handler, Interest name, 0) made by the loop turn]',
+                          {'fe': FE_NAME[FE_V1], 'world': 1, 'history': upto(j)})
+            break
+    ctx.stat('oracle_histories')
+    ctx.stat('registration_api_histories')
+    nontriv = any(e[0] in ('att', 'reg', 'route') for e in h) and any(e[0] == 'recv' for e in h)
+    ctx.case(('world', h), nontriv, {'fe': FE_NAME[FE_V1], 'world': 1, 'history': h[:12]}, stratum)
+
+
+def _world_teardown(w, loop, old_factory):
+    """not part of the history: read the final table, close the connection, let main_loop end, cancel what is left"""
+    n = len(w.calls)
+    try:
+        w_items = w.items()
+    except Exception as e:   # noqa
+        w_items = repr(e)
+    w.loop_state_items = w_items
+    try:
+        w.face.shutdown()
+        loop.settle()
+        every = w.tasks + w.ml + w.chain_tasks + w.route_tasks
+        for t in every:
+            if not t.done():
+                t.cancel()
+        loop.settle()
+        for t in every:
+            if t.done() and not t.cancelled():
+                t.exception()
+    except Exception:   # noqa
+        pass
+    finally:
+        loop.set_task_factory(old_factory)
+    del w.calls[n:]
+
 # ---- generators -------------------------------------------------------------------------------------
 def name_pool():
     cs = [comp('a'), comp('b'), comp('ab'), comp('c'), comp('32=a'), comp('%00%FF'), comp('seg=5'),
@@ -801,6 +1292,266 @@ def tree_names():
     cs = [a, b, c, e, z]
     names = [list(p) for d in range(5) for p in itertools.product(cs, repeat=d)]
     return nodes, names
+
+
+# ---- generators of world histories (registration API of the legacy front-end) -------------------------------
+ROLES = ['free', 'filter', 'reg', 'decl', 'route', 'announce']
+
+
+def answers_cycle(rng):
+    pool = list(dict.fromkeys(FWD_ANSWERS))
+    rng.shuffle(pool)
+    while True:
+        for a in pool:
+            yield a
+
+
+def world_roles_history(rng, nodes, probes, roles, ans):
+    """Every node of the name tree plays a role: free | handler by set_interest_filter | handler by register | handler by
+    route() declared before connecting | handler by route() on the live connection | announced to the forwarder without a
+    handler (register(name, None)).  Probes (Interests for every probe name) after each phase; every command answered in
+    one of the ways a forwarder can answer; then unregister of half the nodes of EVERY role, duplicates (register with
+    and without a handler on occupied prefixes), disconnect and reconnect (only the declared routes come back)."""
+    h = []
+    hid = [0]
+
+    def nh():
+        hid[0] += 1
+        return hid[0]
+
+    def kind():
+        return rng.randrange(N_KINDS)
+
+    def probe(t):
+        h.extend(('recv', n, None, t, len(n) % 2, None) for n in probes)
+        h.append(('settle',))
+    by = {r: [p for p, x in zip(nodes, roles) if x == r] for r in ROLES}
+    owner = {}
+    decl = by['decl'][:]
+    rng.shuffle(decl)
+    filt = by['filter'][:]
+    rng.shuffle(filt)
+    for p in decl:
+        owner[tuple(p)] = nh()
+        h.append(('route', p, owner[tuple(p)], rng.choice([None, 100 + hid[0]]), rng.randrange(2), rng.randrange(2), kind()))
+    for p in filt[:len(filt) // 2]:
+        owner[tuple(p)] = nh()
+        h.append(('att', p, owner[tuple(p)], None, rng.randrange(2), rng.randrange(2), kind(), 0))
+    h += [('connect',), ('settle',)]
+    # the starting task: one declared route per answer; Interests while it is under way
+    for i, p in enumerate(decl):
+        if i == len(decl) // 2:
+            probe(1)
+        h.append(('fwd', next(ans)))
+    for p in filt[len(filt) // 2:]:
+        owner[tuple(p)] = nh()
+        h.append(('att', p, owner[tuple(p)], None, rng.randrange(2), rng.randrange(2), kind(), 0))
+    live = [('reg', p) for p in by['reg']] + [('route', p) for p in by['route']] + [('announce', p) for p in by['announce']]
+    rng.shuffle(live)
+    n_cmd = 0
+    for r, p in live:
+        if r == 'announce':
+            h.append(('reg', p, None, rng.choice([None, 7]), rng.randrange(2), rng.randrange(2), kind()))
+        else:
+            owner[tuple(p)] = nh()
+            h.append((r, p, owner[tuple(p)], rng.choice([None, 100 + hid[0]]), rng.randrange(2), rng.randrange(2), kind()))
+        n_cmd += 1
+        if rng.random() < 0.3:
+            h.append(('settle',))
+    h.append(('settle',))
+    probe(2)                                   # commands not answered yet
+    for i in range(n_cmd):
+        h.append(('fwd', next(ans)))
+        if i == n_cmd // 2:
+            probe(3)
+    probe(4)
+    # unregister half of the nodes of every role (free and announced-only ones too: never an error)
+    gone = [p for r in ROLES for p in by[r][:(len(by[r]) + 1) // 2]]
+    rng.shuffle(gone)
+    for p in gone:
+        h.append(('unreg', p, kind()))
+    h.append(('settle',))
+    probe(5)
+    for _ in gone:
+        h.append(('fwd', next(ans)))
+    # on occupied prefixes: register with a handler is refused, without one it changes nothing; free ones are announced
+    n_cmd = 0
+    for p in nodes:
+        if rng.random() < 0.5:
+            h.append(('reg', p, None, None, 0, 0, kind()))
+            n_cmd += 1
+    for p in nodes:
+        if rng.random() < 0.35:
+            h.append(('reg', p, nh(), None, 0, 0, kind()))
+            n_cmd += 1          # upper bound: refused ones send nothing
+    h.append(('settle',))
+    probe(6)
+    h.append(('DRAIN',))
+    h += [('disconnect',), ('settle',), ('connect',), ('settle',)]
+    probe(7)
+    h.append(('DRAIN',))
+    probe(8)
+    return h
+
+
+def drain(h):
+    """replace the ('DRAIN',) markers by as many forwarder answers (200 / timeouts alternating) as commands are outstanding"""
+    lin, out, k = Lin(), [], 0
+    for e in h:
+        if e[0] == 'DRAIN':
+            while lin.cmds:
+                k += 1
+                ev = ('fwd', 200 if k % 3 else 'timeout')
+                lin.feed(len(out), ev)
+                out.append(ev)
+        else:
+            lin.feed(len(out), e)
+            out.append(e)
+    return out
+
+
+def world_answer_grid(a, b, x):
+    """(stratum, history): a handler at /a; then /a/b gets a handler by register / no handler (announced only) / a handler by
+    a declared route / by a route on the live connection; is unregistered while attached / while free -- the forwarder
+    answering each command in the given way; Interests /a/b/x, /a/b, /a/x, /a, /x before and after every answer."""
+    out = []
+    P = [[a, b, x], [a, b], [a, x], [a], [x]]
+
+    def probe(t):
+        return [('recv', n, None, t, 0, None) for n in P] + [('settle',)]
+    for ans in dict.fromkeys(FWD_ANSWERS):
+        for op in ('reg-h', 'reg-none', 'chain', 'route-live', 'unreg-free'):
+            h = [('att', [a], 1, None, 0, 0, 0, 0)]
+            if op == 'chain':
+                h.append(('route', [a, b], 2, None, 0, 0, 1))
+            h += [('connect',), ('settle',)]
+            if op == 'reg-h':
+                h.append(('reg', [a, b], 2, None, 0, 0, 4))
+            elif op == 'reg-none':
+                h.append(('reg', [a, b], None, None, 0, 0, 0))
+            elif op == 'route-live':
+                h.append(('route', [a, b], 2, None, 1, 0, 2))
+            elif op == 'unreg-free':
+                h.append(('unreg', [a, b], 0))
+            h += [('settle',)] + probe(1) + [('fwd', ans)] + probe(2)
+            h += [('unreg', [a, b], 1), ('settle',)] + probe(3) + [('fwd', ans)] + probe(4)
+            # again, now without a handler, then with one
+            h += [('reg', [a, b], None, None, 0, 0, 0), ('settle',)] + probe(5) + [('fwd', ans)] + probe(6)
+            h += [('reg', [a, b], 3, None, 0, 0, 0), ('settle',)] + probe(7) + [('fwd', ans)] + probe(8)
+            out.append((f'registration-answers-{op}', h))
+    return out
+
+
+def gen_world(rng, cs):
+    """A random world history, steered by the schedule `Lin` (which calls are legal now, which prefixes are occupied)."""
+    lin, h = Lin(), []
+    state = 'down'           # down | connecting | up | closing
+    hid = [0]
+    used = []
+
+    def emit(e):
+        lin.feed(len(h), e)
+        h.append(e)
+
+    def nh():
+        hid[0] += 1
+        return hid[0]
+
+    def pick_name(prefer_free=False):
+        r = rng.random()
+        occ = [list(k) for k in lin.occ]
+        if occ and r < 0.45:                    # below / at / above an occupied prefix
+            base = rng.choice(occ)
+            k = rng.random()
+            if k < 0.5:
+                nm = base + rand_name(rng, cs, 2)[:rng.randint(1, 2)]
+            elif k < 0.75:
+                nm = base
+            else:
+                nm = base[:rng.randint(0, len(base))]
+        elif used and r < 0.7:
+            nm = rng.choice(used)
+        else:
+            nm = rand_name(rng, cs, 3)
+        nm = nm[:5]
+        if prefer_free and tuple(nm) in lin.occ and rng.random() < 0.85:
+            nm = nm + [rng.choice(cs)]
+        return nm
+    n_steps = rng.randint(8, 45)
+    for _ in range(n_steps):
+        r = rng.random()
+        pending = any(q[0] in ('connect', 'disconnect') for q in lin.queue)
+        if state == 'down' and not pending and r < 0.25:
+            emit(('connect',))
+            state = 'connecting'
+        elif r < 0.12:
+            declared = {tuple(d[0]) for d in lin.declared}
+            if lin.connected and (lin.chain is not None or pending):
+                continue                        # route() while the starting task is under way: not driven (see docs)
+            nm = pick_name(prefer_free=True)
+            if not lin.connected and (tuple(nm) in declared or tuple(nm) in lin.occ) and rng.random() < 0.9:
+                continue
+            emit(('route', nm, nh(), rng.choice([None, None, 100 + hid[0]]), rng.randrange(2), rng.randrange(2), rng.randrange(N_KINDS)))
+            used.append(nm)
+        elif r < 0.22:
+            nm = pick_name(prefer_free=True)
+            if not lin.connected and tuple(nm) in {tuple(d[0]) for d in lin.declared} and rng.random() < 0.9:
+                continue
+            emit(('att', nm, nh(), rng.choice([None, None, 100 + hid[0]]), rng.randrange(2), rng.randrange(2), rng.randrange(N_KINDS), 0))
+            used.append(nm)
+        elif r < 0.27:
+            nm = rng.choice(used) if used and rng.random() < 0.8 else pick_name()
+            emit(('det', nm, rng.randrange(N_KINDS)))
+        elif r < 0.50:
+            if not lin.connected or pending:
+                continue
+            k = rng.random()
+            if k < 0.35:
+                nm = pick_name(prefer_free=True)
+                emit(('reg', nm, nh(), rng.choice([None, None, 100 + hid[0]]), rng.randrange(2), rng.randrange(2), rng.randrange(N_KINDS)))
+                used.append(nm)
+            elif k < 0.7:                       # announced only
+                nm = pick_name()
+                emit(('reg', nm, None, rng.choice([None, None, 7]), rng.randrange(2), rng.randrange(2), rng.randrange(N_KINDS)))
+                used.append(nm)
+            else:
+                nm = rng.choice(used) if used and rng.random() < 0.8 else pick_name()
+                emit(('unreg', nm, rng.randrange(N_KINDS)))
+        elif r < 0.78:
+            if not lin.connected or pending:
+                continue
+            for _ in range(rng.choice([1, 1, 2, 4])):
+                base = rng.choice(used) if used else []
+                k = rng.random()
+                if k < 0.5:
+                    nm = base + rand_name(rng, cs, 2)[:rng.randint(0, 2)]
+                elif k < 0.7:
+                    nm = base[:rng.randint(0, len(base))]
+                elif k < 0.85:
+                    nm = base[:-1] + [rng.choice(cs)] if base else [rng.choice(cs)]
+                else:
+                    nm = rand_name(rng, cs)
+                emit(('recv', nm, rng.choice([None, 0, 4000]), 0, rng.randrange(2), None))
+        elif r < 0.88:
+            emit(('settle',))
+            state = {'connecting': 'up', 'closing': 'down'}.get(state, state)
+        elif r < 0.97:
+            if lin.cmds:
+                emit(('fwd', rng.choice(FWD_ANSWERS)))
+                state = {'connecting': 'up', 'closing': 'down'}.get(state, state)
+        else:
+            if state == 'up' and not lin.busy() and lin.connected:
+                emit(('disconnect',))
+                emit(('settle',))
+                state = 'down'
+    emit(('settle',))
+    while lin.cmds:
+        emit(('fwd', rng.choice([200, 200, 'timeout', 400])))
+    if lin.connected:
+        for nm in used[-6:]:
+            emit(('recv', nm + [cs[0]], None, 0, 0, None))
+        emit(('settle',))
+    return h
 
 
 def run(ctx):
@@ -978,6 +1729,30 @@ def run(ctx):
                     run_history(ctx, fe, h, f'buffer-reuse-{FE_NAME[fe]}', state)
         state['check_norm'] = True
 
+        # ---- 2c. the registration API of the legacy front-end over a scripted forwarder (route / register with and
+        # without a handler / unregister, declared routes and the starting task, every kind of answer, reconnection);
+        # who receives each Interest is judged by the specification machine on the linearised history
+        a, b = comp('a'), comp('b')
+        for stratum, h in world_answer_grid(a, b, comp('z')):
+            run_world(ctx, h, stratum, state)
+        ans = answers_cycle(rng)
+        role_sets = []
+        for i in range(9):
+            for r in ROLES:
+                if ctx.thorough or (i * len(ROLES) + ROLES.index(r)) % 2 == 0:
+                    roles = [rng.choice(ROLES) for _ in range(9)]
+                    roles[i] = r
+                    role_sets.append(roles)
+        role_sets.append(['filter'] + ['announce'] * 8)
+        role_sets.append(['decl'] * 9)
+        role_sets.append(['filter', 'announce', 'reg', 'announce', 'decl', 'announce', 'route', 'announce', 'announce'])
+        for _ in range(ctx.n(0, 150)):
+            role_sets.append([rng.choice(ROLES) for _ in range(9)])
+        for roles in role_sets:
+            run_world(ctx, drain(world_roles_history(rng, nodes, probe_all, roles, ans)), 'registration-roles', state)
+        for i in range(ctx.n(200, 8000)):
+            run_world(ctx, gen_world(rng, cs), 'registration-random', state)
+
         # ---- 3. random histories ------------------------------------------------------------------
         for fe in (FE_V2, FE_V1, FE_DISP):
             for i in range(ctx.n(250, 12000)):
@@ -1022,10 +1797,12 @@ def replay(ctx, data):
     h = []
     for e in case['history']:
         e = list(e)
-        if e[0] in ('att', 'det', 'recv'):
+        if e[0] in ('att', 'det', 'recv', 'route', 'reg', 'unreg'):
             e[1] = [bytes(c) for c in e[1]]
+        if e[0] == 'fwd' and isinstance(e[1], list):
+            e[1] = ('nack', tuple(e[1][1]) if isinstance(e[1][1], list) else e[1][1])
         h.append(tuple(e))
-    if not h or h[-1] != ('settle',):
+    if not h or h[-1][0] not in ('settle', 'fwd'):
         h.append(('settle',))
     logging.getLogger('ndn').setLevel(logging.CRITICAL)
     loop = vtloop.new_loop()
@@ -1034,7 +1811,10 @@ def replay(ctx, data):
     state = {'loop': loop, 'data': bytes(make_data('/a/b/x', MetaInfo(), b'payload')), 'check_norm': True,
              'collect': True}
     try:
-        run_history(ctx, fe, h, 'replay', state)
+        if case.get('world'):
+            run_world(ctx, h, 'replay', state)
+        else:
+            run_history(ctx, fe, h, 'replay', state)
     finally:
         ndn.utils.timestamp = old_ts
         loop.close()
